@@ -422,6 +422,18 @@ func (p *c12Plan) resolveQuery(q C12Op, K int) c12Concrete {
 		if q.Kind == "leafposs" && len(q.Picks) > 0 && q.Picks[0]%3 == 0 {
 			co.hashes = append(co.hashes, c12Leaf(p.c.Seed^0xdead, 1))
 		}
+		if q.Kind == "leafposs" && len(q.Picks) > 1 && q.Picks[1]%8 == 3 {
+			// an unusually long request (300 hashes: leaves of every state of the
+			// case, repeated, and fresh ones)
+			var pool []H
+			for _, s := range p.states {
+				pool = append(pool, s.Live()...)
+			}
+			pool = append(pool, c12Leaf(p.c.Seed^0xdead, 4))
+			for i := 0; len(co.hashes) < 300; i++ {
+				co.hashes = append(co.hashes, pool[(i*7+q.Picks[1])%len(pool)])
+			}
+		}
 	case "verify", "verifyrem":
 		co.hashes = pickFrom(live, q.Picks)
 		co.proof, _ = st.Layout().CanonProof(co.hashes)
